@@ -134,9 +134,11 @@ static const char * CNT[16] = {VF_N16("cnt")};
 struct StubModel : RansacModel
 {
   size_t n, draws = 0, refines = 0, best = 0, limit;
+  int lastop = 0;          // 1: a sample model was drawn last, 2: the consensus was refitted last
   bool draw(const double &) override
   {
     const size_t k = draws++;
+    lastop = 1;
     return k >= limit ? true : vf_bool(OKN[k]);
   }
   size_t countInliers(const double &) override
@@ -152,7 +154,7 @@ struct StubModel : RansacModel
     best = v > best ? v : best;
     return best;
   }
-  void refine() override { ++refines; }
+  void refine() override { ++refines; lastop = 2; }
   size_t getNumberOfPoints() const override { return n; }
   size_t getNumberOfPointsToDrawModel() const override { return 3; }
   size_t getMinimalNumberOfInliers() const override { return 6; }
@@ -170,7 +172,8 @@ extern "C" void c06_estimate_protocol()
     vf_check(!ok & (m.draws == 0), "too-few-points-fails-without-drawing");
   } else {
     vf_check(ok == (m.best > 3), "success-iff-some-consensus-exceeds-the-sample-size");
-    vf_check(m.refines == (ok ? 1u : 0u), "refit-on-the-consensus-exactly-once-on-success");
+    // draw() leaves a minimal-sample model in the same slot refine() fills: on success the refit must be the last thing done
+    vf_check(!ok | (m.lastop == 2), "on-success-the-returned-model-is-the-refit-on-the-consensus-not-a-later-sample");
     vf_check(m.draws <= 1000, "at-most-1000-draws");
   }
   vf_reach("estimate_protocol");
